@@ -19,7 +19,7 @@ theorem flow_of_decoded (old : Layer) (data foreign : Bytes) (o : DecOut)
   obtain ⟨hs, hd⟩ := decode_ports old data foreign o h hlen
   have hacc : ∃ f, newFlow endpointTCPPort o.layer.sPort o.layer.dPort = .ok f := by
     rw [Gp.C17.newFlow_accept, hs, hd]
-    simp [maxEndpointSize, List.length_take, List.length_drop]
+    simp [Gp.Gen.Flow.maxEndpointSize, List.length_take, List.length_drop]
     omega
   obtain ⟨f, hf⟩ := hacc
   obtain ⟨w, t, s, d⟩ := Gp.C17.newFlow_faithful hf
